@@ -59,12 +59,13 @@ theorem avail_setHeader (c : Cfg) (w : Wrap.State) (md : MD) :
     · split <;> rfl
   · rfl
 
-theorem avail_sendHeader (w : Wrap.State) (md : MD) : Wrap.avail (Wrap.sendHeader w md).1 = true := by
-  unfold Wrap.sendHeader
-  by_cases hc : w.headerC <;> simp [hc, Wrap.avail]
+theorem avail_sendHeader (c : Cfg) (w : Wrap.State) (md : MD) : Wrap.avail (Wrap.sendHeaderC c w md).1 = true := by
+  unfold Wrap.sendHeaderC Wrap.sendHeader Wrap.sendHeaderOld
+  by_cases hc : w.headerC <;> by_cases he : w.ctxErr.isSome <;> cases c.sendFailsAfterEnd <;>
+    simp [hc, he, Wrap.avail]
 
-theorem avail_preSend (w : Wrap.State) : Wrap.avail (Wrap.sendHeaderIfNeeded w) = true :=
-  avail_sendHeader w []
+theorem avail_preSend (c : Cfg) (w : Wrap.State) : Wrap.avail (Wrap.sendHeaderIfNeededC c w) = true :=
+  avail_sendHeader c w []
 
 theorem avail_xfer (c : Cfg) (w : Wrap.State) (d : Dir) (m : Nat) (reuse : Bool) :
     Wrap.avail (Wrap.xfer c w d m reuse).1 = Wrap.avail w := by
@@ -86,7 +87,7 @@ theorem go_complete (c : Cfg) (fin : Fin) (reuse : Bool) (tm hdr cc : Bool) (srv
   case case2 tm hdr cc md ss cs ih =>
     simp only [go, Wrap.impl]
     rw [complete_sevIf _ _ _ (by simp)]
-    exact ih _ hs (fun _ => avail_sendHeader w md)
+    exact ih _ hs (fun _ => avail_sendHeader c w md)
   case case3 tm hdr cc md ss cs ih =>
     simp only [go, Wrap.impl]
     exact ih _ hs hi
@@ -96,16 +97,16 @@ theorem go_complete (c : Cfg) (fin : Fin) (reuse : Bool) (tm hdr cc : Bool) (srv
   case case5 tm hdr cc m ss cs ih =>
     simp only [go, Wrap.impl]
     rw [complete_cev _ _ (by simp)]
-    exact ih _ hs (fun _ => by rw [avail_xfer]; exact avail_preSend w)
+    exact ih _ hs (fun _ => by rw [avail_xfer]; exact avail_preSend c w)
   case case6 tm hdr cc m ss cs ih =>
-    obtain ⟨md, hmd⟩ := Wrap.header_of_avail (avail_preSend w)
+    obtain ⟨md, hmd⟩ := Wrap.header_of_avail (avail_preSend c w)
     simp only [go, Wrap.impl, hmd]
     rw [complete_cev _ _ (by simp)]
-    exact ih _ hs (fun _ => avail_preSend w)
+    exact ih _ hs (fun _ => avail_preSend c w)
   case case7 tm hdr m ss cs ih =>
     simp only [go, Wrap.impl]
     rw [complete_cev _ _ (by simp)]
-    exact ih _ hs (fun _ => avail_preSend w)
+    exact ih _ hs (fun _ => avail_preSend c w)
   case case10 tm hdr ss cs ih =>
     simp only [go]
     rw [complete_sev _ _ (by simp)]
@@ -180,6 +181,13 @@ theorem go_complete (c : Cfg) (fin : Fin) (reuse : Bool) (tm hdr cc : Bool) (srv
     simp only [go, Wrap.impl, he]
     rw [complete_cev _ _ (Wrap.terminal_ne_stuck he)]
     exact ih _ hs hi
+  case case30 tm hdr cc cs ih =>
+    simp only [Bool.and_eq_true] at hs
+    have hc : w.ctxErr.isSome = true := hi
+    obtain ⟨md, hmd⟩ := Wrap.header_of_avail (w := w) (by simp [Wrap.avail, hc])
+    simp only [go, Wrap.impl, hmd]
+    rw [complete_cev _ _ (by simp)]
+    exact ih _ hs.2 hi
   all_goals (simp at hs)
 
 end ScVerif.C13
